@@ -15,7 +15,7 @@ func TestMain(m *testing.M) { vk.Main(m) }
 // called with every argument in Args (several calls catch state kept between calls).
 type Scenario struct {
 	N      int     `json:"n"`
-	Family string  `json:"family"` // "trace" | "affine" | "table"
+	Family string  `json:"family"` // "trace" | "affine" | "table" | "anynil"
 	A      []int   `json:"a"`      // affine: x -> (A*x+B) mod P ; trace: tag index
 	B      []int   `json:"b"`
 	Table  [][]int `json:"table,omitempty"` // table family: f_i(x) = Table[i][x mod M]
@@ -27,11 +27,11 @@ const tableM = 7
 
 func gen(t *rapid.T) Scenario {
 	sc := Scenario{N: rapid.IntRange(2, 20).Draw(t, "n")}
-	sc.Family = rapid.SampledFrom([]string{"trace", "affine", "table"}).Draw(t, "family")
+	sc.Family = rapid.SampledFrom([]string{"trace", "affine", "table", "anynil"}).Draw(t, "family")
 	sc.Args = rapid.SliceOfN(rapid.IntRange(0, prime-1), 1, 3).Draw(t, "args")
 	for i := 0; i < sc.N; i++ {
 		switch sc.Family {
-		case "trace":
+		case "trace", "anynil":
 			sc.A = append(sc.A, rapid.IntRange(0, 25).Draw(t, "tag"))
 		case "affine":
 			sc.A = append(sc.A, rapid.IntRange(2, prime-1).Draw(t, "a"))
@@ -66,6 +66,49 @@ func Run(sc Scenario) string {
 			for i, c := range calls {
 				if c != k+1 {
 					return fmt.Sprintf("call %d: f_%d was applied %d times in total, want %d", k, i+1, c, k+1)
+				}
+			}
+		}
+	case "anynil":
+		// functions over `any` that legitimately return the nil interface for some inputs: the next
+		// function must still be applied (to nil)
+		raw := make([]func(any) any, sc.N)
+		for i := range raw {
+			tag := "<" + strconv.Itoa(i) + string(rune('a'+sc.A[i])) + ">"
+			k := sc.A[i]
+			raw[i] = func(x any) any {
+				s := "nil"
+				if x != nil {
+					s = x.(string)
+				}
+				s += tag
+				if (len(s)+k)%3 == 0 {
+					return nil
+				}
+				return s
+			}
+		}
+		fs := make([]func(any) any, sc.N)
+		for i := range fs {
+			fs[i] = func(x any) any { calls[i]++; return raw[i](x) }
+		}
+		h := compose(fs)
+		for k, a := range sc.Args {
+			var arg any = strconv.Itoa(a)
+			if a%4 == 0 {
+				arg = nil
+			}
+			got := h(arg)
+			want := arg
+			for i := range raw {
+				want = raw[i](want)
+			}
+			if got != want {
+				return fmt.Sprintf("call %d: Pipe%d(anynil)(%v) = %v, left-to-right fold gives %v", k, sc.N, arg, got, want)
+			}
+			for i, c := range calls {
+				if c != k+1 {
+					return fmt.Sprintf("call %d: f_%d was applied %d times in total, want %d (an intermediate result was the nil interface)", k, i+1, c, k+1)
 				}
 			}
 		}
@@ -111,7 +154,7 @@ func nontrivial(sc Scenario) bool {
 	for i := 0; i < sc.N; i++ {
 		var k string
 		switch sc.Family {
-		case "trace":
+		case "trace", "anynil":
 			k = "t" // trace tags carry the position, always distinct
 			k += strconv.Itoa(i)
 		case "affine":
@@ -143,8 +186,8 @@ func TestC20(t *testing.T) {
 // TestC20Each covers every N with every family deterministically (no N can be missed by chance).
 func TestC20Each(t *testing.T) {
 	for n := 2; n <= 20; n++ {
-		for _, fam := range []string{"trace", "affine", "table"} {
-			sc := Scenario{N: n, Family: fam, Args: []int{3, 999983, 3}}
+		for _, fam := range []string{"trace", "affine", "table", "anynil"} {
+			sc := Scenario{N: n, Family: fam, Args: []int{3, 999983, 4}}
 			for i := 0; i < n; i++ {
 				sc.A = append(sc.A, 2+i)
 				sc.B = append(sc.B, 1+2*i)
